@@ -116,9 +116,12 @@ func GenPath(r *rand.Rand, root reflect.Value, maxDepth int) Path {
 						s = Step{Kind: SIndex, Index: k.String()}
 					}
 				} else {
-					s = Step{Kind: SField, Name: k.String(), Bracket: r.Intn(2) == 0}
+					s = Step{Kind: SField, Name: k.String(), Bracket: r.Intn(2) == 0 || k.String() == ""}
 					if r.Intn(6) == 0 && k.String() == "k1" {
 						s = Step{Kind: SIndex, Index: VarRef("kk1")}
+					}
+					if r.Intn(2) == 0 && k.String() == "" {
+						s = Step{Kind: SIndex, Index: VarRef("kempty")}
 					}
 				}
 			default:
